@@ -41,7 +41,7 @@ def MC_RUNS(quick):
                                          "affine law: every complete curve over F_5, F_7, F_11, F_13, every ordered pair of points, "
                                          "Z1, Z2 in {1, 2, 3}; T Z = X Y on every extended output", False)]
     if not quick:
-        runs += [("EdFormulas", "EdFormulas_p17", "every complete curve over F_17, F_19, all Z", False)]
+        runs += [("EdFormulas", "EdFormulas_p17", "every complete curve over F_17, Z1, Z2 in {1, 2, 3, 16}", False)]
     return runs
 
 
@@ -111,6 +111,11 @@ def mul_part(cv, rng, pts, corners, per_op, nsim, nlong, lots, dense=None, skip=
         sel = list(ok) if dense is not None else rng.sample(ok, min(per_op, len(ok)))
         nl = max(nlong, 1) if (op == "ed_mul_lwreg" and cv.add == gen_ed.EXTND) else nlong
         return sel + rng.sample(bad, min(nl, len(bad)))
+    if cv.n < (1 << cv.wd):
+        # ed_mul_slide normalises its table of odd multiples below 2^RLC_WIDTH with ed_norm_sim (under the ep module's
+        # EP_MIXED): for a group order below 2^RLC_WIDTH (tiny worlds only) [n]P = O is a table entry and hits
+        # C17-normsim-neutral
+        skip = tuple(skip) + ("ed_mul_slide",)
     m = gen_ed.mul_cases(cv, rng, ks_for, pts,
                          ops=[op for op in gen_ed.MUL_VAR + gen_ed.MUL_FIX + ["ed_mul_gen", "ed_mul_dig"] if op not in skip])
     for op in [op for op in gen_ed.MUL_VAR if op not in skip]:          # the neutral element as the point operand
@@ -124,9 +129,12 @@ def mul_part(cv, rng, pts, corners, per_op, nsim, nlong, lots, dense=None, skip=
         out += [(rng.choice(ok), 0), (0, rng.choice(ok))]
         if bad and nlong:
             out += [(rng.choice(bad), rng.choice(ok)), (rng.choice(ok), rng.choice(bad))][:nlong]
+        if op == "ed_mul_sim_trick" and nlong:
+            out.append((rng.choice([1, -1]), rng.choice(ok)))
         return out
     m += gen_ed.sim_cases(cv, rng, kp_for, pts)
-    m += gen_ed.lot_cases(cv, rng, short, pts, lots[0], per_count=lots[1])
+    m += gen_ed.lot_cases(cv, rng, short + [k for k in corners if abs(k).bit_length() <= 2 * cv.fpb + 8], pts, lots[0],
+                          per_count=lots[1])           # no capacity limit: long scalars included
     rng.shuffle(m)
     return m
 
